@@ -4,7 +4,8 @@
    (Forest/ExplicitToTree.v, Forest/ExplicitBuild.v) and tied to lark on every run by harness/props/C04.py. *)
 From Coq Require Import String Ascii Bool Arith List.
 From LV Require Import Base.Prelude Cfg.Grammar Earley.Spec Forest.ExplicitToTree Forest.ExplicitCheck Forest.ExplicitToTree_proofs
-  Forest.ExplicitBuild Forest.ExplicitBuild_proofs Forest.ExplicitBuildCheck.
+  Forest.ExplicitBuild Forest.ExplicitBuild_proofs Forest.ExplicitBuildCheck
+  Earley.Alg Earley.Alg_proofs Forest.ExplicitAlgBuild Forest.ExplicitAlgBuild_proofs.
 Import ListNotations.
 Local Open Scope string_scope.
 Local Open Scope list_scope.
@@ -120,6 +121,66 @@ Proof.
   - exact (A_complete_superset G tok tmatch w start occurs H).
 Qed.
 Print Assumptions C04_A_complete_partial.
+
+(* Layer A for the executable model of lark's Earley parser.  Forest/ExplicitAlgBuild.v is the recogniser model
+   Earley/Alg.v (LIFO worklist, to_scan, held completions; C01) instrumented with the add_family calls of the three
+   call sites of earley.py, nodes being their node_cache keys.  (1) Erasing the log gives back Alg's run.
+   (2) Every logged family is one of the specification relation `added`.  (3) When the run consumed the whole input,
+   every family of `added` is logged - for a completion inside one column whichever of the two items is popped second
+   adds it: the completer from the column, or the predictor from held_completions.  (4) Hence the model's forest
+   stores exactly the derivation trees of the input, and contains every derivation tree whenever one exists.
+   This closes the gap named in C04_A_complete_partial for the model; the model itself is tied to lark on every run
+   by comparing the log of all SymbolNode.add_family calls of a real parse with the model's log (stream alg-families)
+   and, in C01, the item sets of every column. *)
+Theorem C04_A_alg_erasure G start toks : fst (iearley_parse G start toks) = earley_parse G start toks.
+Proof. exact (iearley_erasure G start toks). Qed.
+Print Assumptions C04_A_alg_erasure.
+
+Theorem C04_A_alg_families_sound G start toks f :
+  In f (snd (iearley_parse G start toks)) -> added G nat Nat.eqb toks start (fst f) (snd f).
+Proof. exact (iearley_families_sound G start toks f). Qed.
+Print Assumptions C04_A_alg_families_sound.
+
+Theorem C04_A_alg_families_complete G start toks lbl f :
+  r_out (fst (iearley_parse G start toks)) = Accept \/ r_out (fst (iearley_parse G start toks)) = RejectEOF ->
+  added G nat Nat.eqb toks start lbl f -> In (lbl, f) (snd (iearley_parse G start toks)).
+Proof. exact (iearley_families_complete G start toks lbl f). Qed.
+Print Assumptions C04_A_alg_families_complete.
+
+Theorem C04_A_exact G start toks :
+  r_out (fst (iearley_parse G start toks)) = Accept \/ r_out (fst (iearley_parse G start toks)) = RejectEOF ->
+  forall ds, den nat (in_forest nat (snd (iearley_parse G start toks))) (NSym nat start 0 (length toks)) ds
+             <-> exists d, ds = [d] /\ wfd G nat Nat.eqb d (NT start) /\ yield nat d = toks.
+Proof. exact (iearley_forest_exact G start toks). Qed.
+Print Assumptions C04_A_exact.
+
+Theorem C04_A_complete G start toks d :
+  wfd G nat Nat.eqb d (NT start) -> yield nat d = toks ->
+  r_out (fst (iearley_parse G start toks)) = Accept
+  /\ den nat (in_forest nat (snd (iearley_parse G start toks))) (NSym nat start 0 (length toks)) [d].
+Proof. exact (iearley_forest_complete G start toks d). Qed.
+Print Assumptions C04_A_complete.
+
+(* the same for any token type, matcher and prediction table (Alg's generality) *)
+Theorem C04_A_exact_gen G predictions (tok : Type) tmatch start (w : list tok) occurs :
+  (forall a r, In r (predictions a) -> In r G /\ Analysis_proofs.lc_reach G a (lhs r)) ->
+  (forall a r, In r G -> lhs r = a -> In r (predictions a)) ->
+  (forall x i, occurs x i = true <-> nth_error w i = Some x) ->
+  r_out (fst (iparse G predictions tok tmatch start w)) = Accept
+    \/ r_out (fst (iparse G predictions tok tmatch start w)) = RejectEOF ->
+  forall ds, den tok (in_forest tok (snd (iparse G predictions tok tmatch start w))) (NSym tok start 0 (length w)) ds
+             <-> exists d, ds = [d] /\ wfd G tok tmatch d (NT start) /\ yield tok d = w.
+Proof. intros ps pd os. exact (model_forest_exact G predictions tok tmatch start w ps pd occurs os). Qed.
+Print Assumptions C04_A_exact_gen.
+
+(* non-vacuity: S -> S S | a on "aaa" (0 = S, terminal 0 = a): accepted, 13 add_family calls, and the two
+   derivation trees are stored below the root *)
+Definition exA_G : grammar := [mkRule 0 [NT 0; NT 0]; mkRule 0 [T 0]].
+Example C04_A_example :
+  r_out (fst (iearley_parse exA_G 0 [0; 0; 0])) = Accept
+  /\ length (snd (iearley_parse exA_G 0 [0; 0; 0])) = 13
+  /\ forest_okb exA_G nat Nat.eqb (fun _ => 1) (occurs_nat [0; 0; 0]) (snd (iearley_parse exA_G 0 [0; 0; 0])) = true.
+Proof. repeat split; vm_compute; reflexivity. Qed.
 
 (* Non-vacuity: the forest lark builds for
      start: _i q _i     _i: A | A A     ?q: A? "a"     A: "a"          on "aaaa" (dynamic lexer)
